@@ -2167,7 +2167,12 @@ func (db *DB) sync(ctx context.Context, checkpointing bool, exec *syncExecutor, 
 		var pfmError *PrevFrameMismatchError
 		if rd, err = NewWALReaderWithOffset(ctx, walFile, info.offset, info.salt1, info.salt2, walReaderLogger); errors.As(err, &pfmError) {
 			db.Logger.Log(ctx, internal.LevelTrace, "prev frame mismatch, snapshotting", "err", pfmError.Err)
+			// The WAL changed after verify() looked at it: frames that were
+			// never copied may by now only exist in the database file, so an
+			// incremental file read from the WAL header would lose them.
 			info.offset = WALHeaderSize
+			info.snapshotting = true
+			info.reason = "prev frame mismatch"
 			if rd, err = NewWALReader(walFile, walReaderLogger); err != nil {
 				return result, fmt.Errorf("new wal reader, after reset")
 			}
